@@ -59,7 +59,7 @@ pub fn gen_command(r: &mut Rng) -> Value {
 
 pub fn gen_timestamp(r: &mut Rng) -> String {
     let base = *r.pick(&["2020-08-19T08:38:00", "1970-01-01T00:00:00", "2038-01-19T03:14:07", "9999-12-31T23:59:59", "2016-12-31T23:59:60", "2024-02-29T12:00:00"]);
-    let frac = *r.pick(&["", "", "", ".5", ".123456789", ".000"]);
+    let frac = *r.pick(&["", "", "", ".5", ".123456789", ".000", ".0005", ".000001", ".000000001", ".999999999", ".001", ".0009", ".100000001"]);
     let zone = *r.pick(&["Z", "Z", "+00:00", "-00:00", "+02:00", "-08:00", "+05:30", "+14:00", "z"]);
     format!("{}{}{}", base, frac, zone)
 }
